@@ -3,7 +3,7 @@ import os
 
 from . import world as W
 
-TERMINAL_HARNESS = (73, 99, "wall_timeout", "signaled")
+TERMINAL_HARNESS = (73, 99, "signaled")
 
 
 def fault_kind_name(f, rec=None):
@@ -74,6 +74,10 @@ def summarise(world, outcome):
         res["aborted"].append({"type": ex[-1]["type"] if ex else "?", "msg": ex[-1]["msg"][:300] if ex else "",
                                "phase": ex[-1].get("phase") if ex else None,
                                "tb": ex[-1]["tb"][-1200:] if ex else ""})
+    if last == "wall_timeout":
+        # harness robustness limit (a loop with few nessai line events but expensive numpy work can outrun
+        # the step budget in wall time): the run is inconclusive, it is neither a verdict nor a harness error
+        res["probes"]["inconclusive_wall_limit"] = 1
     res["finished"] = last == 0
     res["wall_s"] = round(outcome.get("wall_s", 0.0), 2)
     return res
